@@ -127,10 +127,24 @@ def gen_history(rng, tier):
     nops = rng.randrange(4, 30 if tier == "quick" else 60)
     plow = rng.choice([0.0, 0.2, 0.5, 0.8, 1.0])
     ops = []
+    focus = rng.random() < 0.3
+    if focus:
+        # ngram-focused history: every key is first driven into the probabilistic zone (counter ≥ num_reserved),
+        # then add_ngram is used with n ≥ len(key) (whole-key branch) and n < len(key) (window branch) so that
+        # every add_ngram consumes draws
+        small = [c for c in cfgs if c[1] <= 100]
+        if small:
+            mc, nr, base = rng.choice(small)
+        for s_ in range(nsk):
+            for k in range(nkeys):
+                ops.append(["add", s_, k, nr + rng.choice([0, 1, 2])])
     for _ in range(nops):
         x = rng.random()
         s = rng.randrange(nsk)
-        if x < 0.7:
+        if focus and x < 0.6:
+            k = rng.randrange(nkeys)
+            ops.append(["addngram", s, k, rng.choice([len(keys[k]), len(keys[k]) + 1, max(len(keys[k]) - 1, 1), 1, 256])])
+        elif x < 0.7:
             v = rng.choice([0, 1, 1, 1, 2, 3, 5, nr, nr + 1, nr + 2, rng.randrange(1, 60), rng.randrange(1, 300)])
             ops.append(["add", s, rng.randrange(nkeys), v])
         elif x < 0.88 and nsk > 1:
@@ -180,6 +194,7 @@ def run_history(case):
     ops.append(["log.draws " + " ".join("z" if u == 0.0 else "o" for u in draws), None, "setup"])
     body = []
     fails = []
+    stats = {"ngram_draws": 0, "ngram_whole_key_draws": 0}
     truth = [dict() for _ in sks]
     loads = [[[0] * W for _ in range(D)] for _ in sks]
 
@@ -201,8 +216,12 @@ def run_history(case):
         na = int(sks[i].n_added())
         if int(sks[i].rand_ptr) + v >= 2040:
             return False
+        ref_tab, ref_ptr = py_log_add([[int(x) for x in row] for row in before], probe.cols(key), v, draws, int(sks[i].rand_ptr), nr, maxc)
         sks[i].add(key, v)
         after = sks[i].cms
+        if [[int(x) for x in row] for row in after] != ref_tab or int(sks[i].rand_ptr) != ref_ptr:
+            F("C06", f"add({key!r},{v}) with placed draws: table/rand_ptr {[[int(x) for x in row] for row in after]}/{int(sks[i].rand_ptr)} differ from the documented rule "
+                     f"{ref_tab}/{ref_ptr} (a draw was recycled, skipped or mis-used)")
         qa = [qc(i, kk) for kk in allk]
         truth[i][k] = truth[i].get(k, 0) + v
         for r, c in enumerate(probe.cols(key)):
@@ -246,7 +265,19 @@ def run_history(case):
             if int(sks[i].rand_ptr) + len(ws) >= 2040:
                 continue
             before_na = int(sks[i].n_added())
+            ptr0 = int(sks[i].rand_ptr)
+            ref_tab, ref_ptr = [[int(x) for x in row] for row in sks[i].cms], ptr0
+            for w in ws:
+                K(w)
+                ref_tab, ref_ptr = py_log_add(ref_tab, probe.cols(w), 1, draws, ref_ptr, nr, maxc)
             sks[i].add_ngram(keys[ki], n)
+            if [[int(x) for x in row] for row in sks[i].cms] != ref_tab or int(sks[i].rand_ptr) != ref_ptr:
+                F("C06", f"add_ngram({keys[ki]!r},{n}) with placed draws: table/rand_ptr {[[int(x) for x in row] for row in sks[i].cms]}/{int(sks[i].rand_ptr)} differ from "
+                         f"the documented rule {ref_tab}/{ref_ptr} (a draw was recycled, skipped or mis-used)")
+            if int(sks[i].rand_ptr) != ptr0:
+                stats["ngram_draws"] += 1
+                if len(keys[ki]) <= n:
+                    stats["ngram_whole_key_draws"] += 1
             for w in ws:
                 k = K(w)
                 truth[i][k] = truth[i].get(k, 0) + 1
@@ -293,7 +324,29 @@ def run_history(case):
     for i in range(len(sks)):
         pre.append([f"log.new {i}", None, "setup"])
     shared = len({(r, c) for key in allk for r, c in enumerate(probe.cols(key))}) < len(allk) * D
-    return ops + pre + body, fails, {"shared": shared}
+    return ops + pre + body, fails, {"shared": shared, **stats}
+
+
+def py_log_add(tab, cols, v, draws, ptr, nr, maxc):
+    """the documented rule, two-point draws: returns (new table, new rand_ptr)"""
+    m = min(tab[r][c] for r, c in enumerate(cols))
+    c = m
+    for _ in range(v):
+        if c >= maxc:
+            break
+        if c < nr:
+            c += 1
+        else:
+            u = draws[ptr]
+            ptr += 1
+            if u == 0.0 or c == nr:
+                c += 1
+    new = [row[:] for row in tab]
+    if c != m:
+        for r, col in enumerate(cols):
+            if new[r][col] < c:
+                new[r][col] = c
+    return new, ptr
 
 
 def log_history(res, rng, tier, pids, n_cases, budget_s):
@@ -311,6 +364,8 @@ def log_history(res, rng, tier, pids, n_cases, budget_s):
             res.nontrivial(case)
             res.count("log_cases_with_shared_cell")
         res.count("log_" + case["kind"])
+        res.count("ngram_adds_consuming_draws", st["ngram_draws"])
+        res.count("whole_key_ngram_adds_consuming_draws_" + case["kind"], st["ngram_whole_key_draws"])
         res.sample({"slice": "log_history", "kind": case["kind"], "max_count": case["mc"], "num_reserved": case["nr"], "width": case["width"],
                     "depth": case["depth"], "ops": case["ops"][:6]})
     mism, ncmp = sess.run()
